@@ -47,8 +47,8 @@ elif m == 'M10': # the print pass forgets that a lifted node was already printed
 elif m == 'S1': # a scan-scope binding is printed as an agg-scope AggLet
     sub(R, "child_builder = [f'(AggLet {name} True ']", "child_builder = [f'(AggLet {name} False ']", 1)
 elif m == 'S2': # both passes forget that an ApplyScanOp / scan AggLet argument is in the SCAN scope
-    sub(R, "                child_scan_scope = True\n", "                child_scan_scope = False\n", 1)
-    sub(R, "                    child_scan_scope = True\n", "                    child_scan_scope = False\n", 1)
+    t = open(R).read(); assert t.count("child_scan_scope = True\n") == 2  # S2REPL
+    open(R, "w").write(t.replace("child_scan_scope = True\n", "child_scan_scope = False\n"))
 elif m == 'S3': # TableMapRows declares no scan bindings
     T = wt + '/hail/python/hail/ir/table_ir.py'
     t = open(T).read(); old = "    def renderable_scan_bindings(self, i, default_value=None):\n        return self.child.typ.row_env(default_value) if i == 1 else {}\n"
